@@ -174,25 +174,27 @@ func RunAsyncQueryForNewPipeline(conn *websocket.Conn, qid uint64, simpleNode *s
 	qc *structs.QueryContext, sizeLimit uint64, scrollFrom int,
 ) {
 	websocketR := make(chan map[string]interface{})
+	// done is closed when the query has ended: both helper goroutines stop then. (A goroutine
+	// blocked forever on a send to websocketR used to be left behind by every websocket query.)
+	done := make(chan struct{})
 
-	go listenToConnection(qid, websocketR, conn)
+	go listenToConnection(qid, websocketR, done, conn)
 
 	go func() {
 		for {
-			readMsg := <-websocketR
-
-			if readMsg["state"] == "cancel" {
-				log.Infof("qid=%d, RunAsyncQueryForNewPipeline: Got message from websocket: %+v", qid, readMsg)
-				query.CancelQuery(qid)
-			} else if readMsg["state"] == "exit" {
+			select {
+			case readMsg := <-websocketR:
+				if readMsg["state"] == "cancel" {
+					log.Infof("qid=%d, RunAsyncQueryForNewPipeline: Got message from websocket: %+v", qid, readMsg)
+					query.CancelQuery(qid)
+				}
+			case <-done:
 				return
 			}
 		}
 	}()
 
-	defer func() {
-		websocketR <- map[string]interface{}{"state": "exit"}
-	}()
+	defer close(done)
 
 	_, _, _, err := RunQueryForNewPipeline(conn, qid, simpleNode, aggs, timechartSimpleNode, timechartAggs, qc, sizeLimit)
 	if err != nil {
@@ -205,7 +207,7 @@ func RunAsyncQueryForNewPipeline(conn *websocket.Conn, qid uint64, simpleNode *s
 	}
 }
 
-func listenToConnection(qid uint64, e chan map[string]interface{}, conn *websocket.Conn) {
+func listenToConnection(qid uint64, e chan map[string]interface{}, done chan struct{}, conn *websocket.Conn) {
 	for {
 		readEvent := make(map[string]interface{})
 		err := conn.ReadJSON(&readEvent)
@@ -215,10 +217,17 @@ func listenToConnection(qid uint64, e chan map[string]interface{}, conn *websock
 				log.Errorf("qid=%d, listenToConnection unexpected error: %+v", qid, err.Error())
 			}
 			cancelEvent := map[string]interface{}{"state": "cancel", "message": "websocket connection is closed"}
-			e <- cancelEvent
+			select {
+			case e <- cancelEvent:
+			case <-done:
+			}
 			return
 		}
-		e <- readEvent
+		select {
+		case e <- readEvent:
+		case <-done:
+			return
+		}
 	}
 }
 
